@@ -4,6 +4,7 @@
 import NPModel.Driver.Ops
 import NPModel.Spec.Frame
 import NPModel.Impl.Dtype
+import NPModel.Impl.Names
 open Lean
 namespace NP
 
@@ -140,6 +141,31 @@ def runFrameOp (op : String) (j : Json) : P (Json × Json) := do
     let subset ← optOf (listOf (listOf strOf)) (fldD j "subset" .null)
     let enc : Target → Json := fun t => match t with | .base => .str "base" | .nest n => Json.mkObj [("nest", .str n)]
     pure (resJson (enc <$> resolveDropnaTarget nested on subset), .null)
+  | "names.parse" | "names.getitem" | "names.setitem" => do
+    let path ← strOf (← fld j "path")
+    let pairsOf := fun (jj : Json) => listOf (fun p => do let a ← arrOf p; pure ((← strOf a[0]!).toList, (← strOf a[1]!).toList)) jj
+    let cleanTable ← pairsOf (fldD j "clean" (.arr #[]))
+    let clean : Str → Str := fun s => ((cleanTable.find? (·.1 == s)).map (·.2)).getD s
+    let attr ← optOf pairsOf (fldD j "aliases" .null)
+    let jstr := fun (s : Str) => Json.str (String.ofList s)
+    if op == "names.parse" then
+      pure (Json.mkObj [("ok", jList jstr (parseComponents clean attr path.toList))], .null)
+    else
+      let sj ← fld j "schema"
+      let base ← listOf (fun x => do pure (← strOf x).toList) (← fld sj "base")
+      let nested ← listOf (fun p => do
+        let a ← arrOf p
+        pure ((← strOf a[0]!).toList, ← listOf (fun x => do pure (← strOf x).toList) a[1]!)) (← fld sj "nested")
+      let S : Schema := { base := base, nested := nested }
+      let r := if op == "names.getitem" then getitemResolve clean attr S path.toList else setitemResolve clean attr S path.toList
+      let enc : Resolved → Json := fun r => match r with
+        | .column n => Json.mkObj [("column", jstr n)]
+        | .field n f => Json.mkObj [("field", Json.arr #[jstr n, jstr f])]
+        | .newField n f => Json.mkObj [("newField", Json.arr #[jstr n, jstr f])]
+        | .newNest n f => Json.mkObj [("newNest", Json.arr #[jstr n, jstr f])]
+        | .keyError => Json.mkObj [("err", .str "KeyError")]
+        | .valueError => Json.mkObj [("err", .str "ValueError")]
+      pure (enc r, .null)
   | "dtype.parse" => do
     let str ← strOf (← fld j "string")
     let table ← listOf (fun p => do let a ← arrOf p; pure ((← strOf a[0]!).toList, ← strOf a[1]!)) (← fld j "aliases")
@@ -202,7 +228,7 @@ def handleLine2 (line : String) : String :=
     let id := fldD j "id" .null
     match (do
         let op ← strOf (← fld j "op")
-        if op.startsWith "frame." || op.startsWith "dtype." then runFrameOp op j else runOp op j : P (Json × Json)) with
+        if op.startsWith "frame." || op.startsWith "dtype." || op.startsWith "names." then runFrameOp op j else runOp op j : P (Json × Json)) with
     | .ok (m, sp) => (Json.mkObj [("id", id), ("model", m), ("spec", sp)]).compress
     | .error e => (Json.mkObj [("id", id), ("bad", .str e)]).compress
 
